@@ -116,6 +116,8 @@ type tsaCase struct {
 	sent    map[int][]byte // token DER sent per URL index
 	// encdigFree: the signature value is not known in advance (real signing); the request's own value is used
 	encdigFree bool
+	timeout    time.Duration // the client's timeout, to notice replies that were slow only because of machine load
+	slow       bool
 }
 
 type fakeTSA struct {
@@ -127,7 +129,7 @@ type fakeTSA struct {
 }
 
 func newFakeTSA(p *pki) *fakeTSA {
-	f := &fakeTSA{p: p, hang: 2500 * time.Millisecond}
+	f := &fakeTSA{p: p, hang: 6 * time.Second}
 	f.srv = httptest.NewServer(http.HandlerFunc(f.handle))
 	l, err := net.Listen("tcp", "127.0.0.1:0")
 	if err == nil {
@@ -165,6 +167,14 @@ func (f *fakeTSA) handle(w http.ResponseWriter, r *http.Request) {
 	var code int
 	var out []byte
 	var err error
+	t0 := time.Now()
+	defer func() {
+		if name != "hang" && tc.timeout > 0 && time.Since(t0) > tc.timeout/2 {
+			tc.mu.Lock()
+			tc.slow = true // openssl was starved: the client may have timed out on a reply that is not a hang
+			tc.mu.Unlock()
+		}
+	}()
 	if tc.style == "legacy" {
 		code, out, err = f.legacy(tc, idx, name, body, r)
 	} else {
@@ -346,6 +356,7 @@ type clientCase struct {
 	ExtOK   bool     `json:"ext_ok"` // openssl accepts the returned token for this signature value
 	ExtNote string   `json:"ext_note,omitempty"`
 	WallMS  int      `json:"wall_ms"`
+	Retried int      `json:"retried,omitempty"`
 }
 
 func (f *fakeTSA) originOf(tok *pkcs7.ContentInfoSignedData) int {
@@ -372,11 +383,22 @@ func (f *fakeTSA) register(key, style string, seq []string, encdig []byte) (*tsa
 }
 
 func (f *fakeTSA) runClient(cs *clientCase) {
+	for try := 0; try < 4; try++ {
+		*cs = clientCase{ID: cs.ID, Kind: cs.Kind, Style: cs.Style, Seq: cs.Seq, Attrs: cs.Attrs, CtxMS: cs.CtxMS, EncDig: cs.EncDig, Retried: try}
+		if !f.runClientOnce(cs) {
+			return
+		}
+	}
+}
+
+// runClientOnce reports whether the run must be repeated because the fake authority itself was too slow
+func (f *fakeTSA) runClientOnce(cs *clientCase) (slow bool) {
 	encdig, _ := hex.DecodeString(cs.EncDig)
 	key := "k" + strconv.Itoa(cs.ID)
 	tc, urls := f.register(key, cs.Style, cs.Seq, encdig)
 	defer f.cases.Delete(key)
-	conf := &config.TimestampConfig{Timeout: 1}
+	conf := &config.TimestampConfig{Timeout: 2}
+	tc.timeout = 2 * time.Second
 	req := &pkcs9.Request{EncryptedDigest: encdig, Hash: crypto.SHA256}
 	if cs.Style == "legacy" {
 		conf.MsURLs = urls
@@ -386,6 +408,7 @@ func (f *fakeTSA) runClient(cs *clientCase) {
 	}
 	ctx := context.Background()
 	if cs.CtxMS > 0 {
+		tc.timeout = time.Duration(cs.CtxMS) * time.Millisecond
 		var cancel context.CancelFunc
 		ctx, cancel = context.WithTimeout(ctx, time.Duration(cs.CtxMS)*time.Millisecond)
 		defer cancel()
@@ -422,6 +445,7 @@ func (f *fakeTSA) runClient(cs *clientCase) {
 	tc.mu.Lock()
 	cs.Hits = append([]int{}, tc.hits...)
 	cs.ReqOK, cs.ReqNote = tc.reqOK, tc.reqNote
+	slow = tc.slow
 	tc.mu.Unlock()
 	cs.Origin = -1
 	if cs.Result == "ok" {
@@ -429,7 +453,7 @@ func (f *fakeTSA) runClient(cs *clientCase) {
 		der, err := tok.Marshal()
 		if err != nil {
 			cs.ExtNote = "marshal: " + err.Error()
-			return
+			return slow
 		}
 		tc.mu.Lock()
 		sent := tc.sent[cs.Origin]
@@ -445,6 +469,7 @@ func (f *fakeTSA) runClient(cs *clientCase) {
 			cs.ExtNote = cs.ExtNote[len(cs.ExtNote)-300:]
 		}
 	}
+	return slow
 }
 
 func seqs(names []string, n int) [][]string {
@@ -511,8 +536,8 @@ func buildClientCases(tier string) []*clientCase {
 		}
 	}
 	// caller's context expires during the first attempt: no further authority may be tried, signing must fail
-	add("rfc3161", []string{"hang", "good"}, 300)
-	add("rfc3161", []string{"bad_sig", "hang", "good"}, 300)
+	add("rfc3161", []string{"hang", "good"}, 800)
+	add("rfc3161", []string{"bad_sig", "hang", "good"}, 800)
 	lall := names(behavioursLegacy, len(behavioursLegacy))
 	lcore := names(behavioursLegacy, coreLegacy)
 	add("legacy", []string{}, 0)
